@@ -117,6 +117,32 @@ class C01(Scenario):
             ctx.eq(f"get_right_hand_side_time_course[0,{v}]", rtc[v].iloc[0], dx[v])
             ctx.eq(f"get_right_hand_side_time_course[1,{v}]", rtc[v].iloc[1], dx2[v])
 
+        # the same questions after the values were changed through the public API
+        # (the answers must follow the values the named arguments have *now*)
+        plain = [n for n, p_ in decl.parameters.items() if not hasattr(p_.value, "fn")]
+        if plain:
+            with ctx.impl("update_parameter"):
+                for i, n in enumerate(plain):
+                    if i % 2 == 0:
+                        m.update_parameter(n, ctx.real(f"p2_{n}"))
+                    else:
+                        m.scale_parameter(n, ctx.real(f"f2_{n}"))
+            decl = E.Decl(m)
+            env3 = E.state_env(decl, state, T)
+            dx3 = E.rhs(decl, state, T, env3)
+            with ctx.impl("__call__ after update"):
+                out = m(T, [state[v] for v in names])
+            for i, v in enumerate(names):
+                ctx.eq(f"after update: __call__[{v}]", out[i], dx3[v])
+            with ctx.impl("get_right_hand_side after update"):
+                r = m.get_right_hand_side(dict(state), T)
+            for v in names:
+                ctx.eq(f"after update: get_right_hand_side[{v}]", r[v], dx3[v])
+            with ctx.impl("get_fluxes after update"):
+                fl = m.get_fluxes(dict(state), T)
+            for f in fluxn:
+                ctx.eq(f"after update: get_fluxes[{f}]", fl[f], env3[f])
+
 
 def scenarios(tier, seed):
     return [C01(s) for s in M.shapes(tier)]
